@@ -35,12 +35,21 @@ func runC01(c *Ctx) {
 		if sp := c.one(f, false, "ccv.ChannelKeeper.SendPacket"); sp != nil {
 			okRoles := PParam("sourcePortID")(arg(sp, 1)) && PParam("sourceChannelID")(arg(sp, 2)) && PParam("packetData")(arg(sp, 5))
 			c.Check(okRoles, fk(f, "forwards-arguments"), sp, "SendPacket(ctx, sourcePortID, sourceChannelID, _, _, packetData); found "+describe(arg(sp, 1))+", "+describe(arg(sp, 2))+", "+describe(arg(sp, 5)))
-			wantTs := PCall("time.Time.UnixNano", -1, PCall("time.Time.Add", -1, PCall("sdk.Context.BlockTime", -1, nil), PParam("timeoutPeriod")))
 			ts := arg(sp, 4)
-			if cv, ok := ts.(*ssa.Convert); ok {
-				ts = cv.X
+			var period ssa.Value
+			for _, prm := range f.Params {
+				if prm.Name() == "timeoutPeriod" {
+					period = prm
+				}
 			}
-			c.Check(wantTs(ts), fk(f, "timeout-is-blocktime-plus-period"), sp, "timeout timestamp = BlockTime().Add(timeoutPeriod).UnixNano(); found "+describe(ts))
+			usesBlockTime := false
+			for _, bt := range Calls(f, false, "sdk.Context.BlockTime") {
+				if dependsOn(ts, bt.Value(), 0, map[ssa.Value]bool{}) {
+					usesBlockTime = true
+				}
+			}
+			c.Check(period != nil && usesBlockTime && dependsOn(ts, period, 0, map[ssa.Value]bool{}) && isNilOrZeroHeight(arg(sp, 3)), fk(f, "timeout-is-blocktime-plus-period"), sp,
+				"the timeout timestamp is computed from ctx.BlockTime() and timeoutPeriod, the timeout height is disabled; found "+describe(ts))
 			for _, r := range Returns(f) {
 				if mustPassBefore(r, sp) {
 					c.Check(PIs(extractOf(sp, 1))(r.Results[0]), fk(f, "returns-send-error"), r, "after SendPacket the helper returns SendPacket's error")
@@ -351,4 +360,29 @@ func keyOfSameElement(mu *ssa.MapUpdate) bool {
 		via, _ = u.X.(*ssa.IndexAddr)
 	}
 	return kia != nil && via != nil && kia.X == via.X && kia.Index == via.Index
+}
+
+// isNilOrZeroHeight: the zero clienttypes.Height literal.
+func isNilOrZeroHeight(v ssa.Value) bool {
+	v = strip(v)
+	if u, ok := v.(*ssa.UnOp); ok {
+		if al, ok := u.X.(*ssa.Alloc); ok {
+			// a composite literal with no field stores
+			for _, r := range *al.Referrers() {
+				if _, isFA := r.(*ssa.FieldAddr); isFA {
+					return false
+				}
+				if st, isSt := r.(*ssa.Store); isSt && st.Addr == ssa.Value(al) {
+					if _, isC := st.Val.(*ssa.Const); !isC {
+						return false
+					}
+				}
+			}
+			return true
+		}
+	}
+	if cst, ok := v.(*ssa.Const); ok {
+		return cst.Value == nil
+	}
+	return false
 }
